@@ -4,13 +4,13 @@ import (
 	"bytes"
 	"context"
 	"crypto"
-	"os"
-	"path/filepath"
 	"crypto/sha256"
 	"crypto/x509"
 	"fmt"
 	"net/http"
 	"net/http/httptest"
+	"os"
+	"path/filepath"
 	"strings"
 	"sync"
 	"sync/atomic"
